@@ -25,6 +25,10 @@ pub struct W {
     /// --vimgrep: one output line per match, with line and column (only without context,
     /// inversion and passthru).
     pub vimgrep: bool,
+    /// --trim: leading ASCII white space of every printed line is dropped.
+    pub trim: bool,
+    /// --column: a matching line also carries the 1-based column of its first match.
+    pub column: bool,
 }
 
 pub fn gen(sub: u64) -> W {
@@ -52,7 +56,7 @@ pub fn gen(sub: u64) -> W {
         // (not with --crlf: the per-match printing path re-terminates every line with the
         // configured terminator, so a bare LF comes out as CR LF there - a matter of presentation
         // that the property does not speak about)
-        return W { text, a: 0, b: 0, passthru: false, invert: false, line_numbers: true, stop_nm: false, crlf: false, ctx_flag_style: 0, byte_offset: false, vimgrep: true };
+        return W { text, a: 0, b: 0, passthru: false, invert: false, line_numbers: true, stop_nm: false, crlf: false, ctx_flag_style: 0, byte_offset: false, vimgrep: true, trim: false, column: false };
     }
     W {
         text,
@@ -66,6 +70,10 @@ pub fn gen(sub: u64) -> W {
         ctx_flag_style: rng.below(3),
         byte_offset: rng.chance(1, 3),
         vimgrep: false,
+        // (not with --crlf: flags that need the per-match printing path make it re-terminate
+        // every line with CR LF, bare LF included)
+        trim: rng.chance(1, 5) && !crlf,
+        column: rng.chance(1, 5) && !crlf,
     }
 }
 
@@ -96,6 +104,12 @@ fn flags(w: &W) -> Vec<String> {
     }
     if w.vimgrep {
         f.push("--vimgrep".into());
+    }
+    if w.trim {
+        f.push("--trim".into());
+    }
+    if w.column {
+        f.push("--column".into());
     }
     f.push("foo".into());
     f
@@ -159,11 +173,28 @@ pub fn model_output(w: &W) -> Vec<u8> {
                 out.extend_from_slice(format!("{}", i + 1).as_bytes());
                 out.push(k);
             }
+            // the column of the first match: on selected lines, and with -v on the context
+            // lines (which are the ones holding matches then)
+            if w.column && ((k == b':') != w.invert) {
+                if let Some(p) = lines_v[i].windows(3).position(|x| x == b"foo") {
+                    out.extend_from_slice(format!("{}", p + 1).as_bytes());
+                    out.push(k);
+                }
+            }
             if w.byte_offset {
                 out.extend_from_slice(format!("{}", starts[i]).as_bytes());
                 out.push(k);
             }
-            out.extend_from_slice(lines_v[i]);
+            let shown: &[u8] = if w.trim {
+                let n = lines_v[i].iter().take_while(|&&b| matches!(b, b' ' | b'\t' | 0x0b | 0x0c | b'\r')).count();
+                // (the terminator itself is never trimmed away)
+                let n = n.min(lines_v[i].len().saturating_sub(if lines_v[i].ends_with(b"\r\n") { 2 } else if lines_v[i].ends_with(b"\n") { 1 } else { 0 }));
+                &lines_v[i][n..]
+            } else {
+                lines_v[i]
+            };
+            out.extend_from_slice(shown);
+
             if !lines_v[i].ends_with(b"\n") {
                 out.extend_from_slice(if w.crlf { b"\r\n" as &[u8] } else { b"\n" });
             }
@@ -254,6 +285,8 @@ pub fn run_workload(prop: &str, sub: u64, acc: &mut Acc, ctx: &Ctx, thorough: bo
         std::fs::write(root.join("a-pre.txt"), &pre).unwrap();
         let ml = rng.chance(1, 2);
         let map = if rng.chance(1, 3) { "--mmap" } else { "--no-mmap" };
+        let (fl, w) = ml_variant(&fl, &w, ml);
+        let expected = model_output(&w);
         let mut targs: Vec<String> = fl[..fl.len() - 1].to_vec();
         if ml {
             targs.extend(["-U".into(), "foo\\n?".into()]);
@@ -272,6 +305,7 @@ pub fn run_workload(prop: &str, sub: u64, acc: &mut Acc, ctx: &Ctx, thorough: bo
         for (name, plan) in [("twofiles", vec!["noop=1".to_string()]), ("twofiles+nofstat", vec![format!("fstat_err=/w/doc.txt:{errno}")])] {
             let spec = RunSpec { args: targs.clone(), plan, ..RunSpec::default() };
             let got = ctx.run(&scratch, &spec, 60);
+            let got = if targs.iter().any(|a| a == "--stats") { RunOut { stdout: strip_stats(&got.stdout), ..got } } else { got };
             acc.evals += 1;
             acc.faults.add("fstat-of-open-file-fails", got.fired("fstat_err"));
             acc.faults.inc(&format!("route:{name}{}", if ml { "(-U)" } else { "" }));
@@ -301,6 +335,8 @@ pub fn run_workload(prop: &str, sub: u64, acc: &mut Acc, ctx: &Ctx, thorough: bo
         if unsafe { libc::mkfifo(cpath.as_ptr(), 0o644) } == 0 {
             let ml = !w.stop_nm && rng.chance(1, 2);
             let map = if rng.chance(1, 2) { "--mmap" } else { "--no-mmap" };
+            let (fl, w) = ml_variant(&fl, &w, ml);
+            let expected = model_output(&w);
             let mut targs: Vec<String> = fl[..fl.len() - 1].to_vec();
             if ml {
                 targs.extend(["-U".into(), "foo\\n?".into()]);
@@ -318,6 +354,8 @@ pub fn run_workload(prop: &str, sub: u64, acc: &mut Acc, ctx: &Ctx, thorough: bo
             });
             let spec = RunSpec { args: targs.clone(), plan: vec!["noop=1".into()], ..RunSpec::default() };
             let got = ctx.run(&scratch, &spec, 60);
+            let with_stats = targs.iter().any(|a| a == "--stats");
+            let got = if with_stats { RunOut { stdout: strip_stats(&got.stdout), ..got } } else { got };
             // release the writer should rg never have opened the pipe
             if let Ok(mut f) = std::fs::OpenOptions::new().read(true).custom_flags(libc::O_NONBLOCK).open(&fifo) {
                 use std::io::Read;
@@ -334,7 +372,7 @@ pub fn run_workload(prop: &str, sub: u64, acc: &mut Acc, ctx: &Ctx, thorough: bo
                 if got.stdout != expected || got.code != exp_code || !got.stderr.is_empty() {
                     acc.violation("C03", &format!("cli-differs-from-model:named-pipe{}", if ml { "(-U)" } else { "" }), format!("rg {:?}: output for a named pipe differs from the grep model's rendering (exit {} expected {exp_code}; {} vs {} bytes)", targs, got.code, got.stdout.len(), expected.len()), sub, body);
                 }
-            } else if let Some((n0, r0)) = &first {
+            } else if let (Some((n0, r0)), false) = (&first, with_stats) {
                 if got.stdout != r0.stdout || got.code != r0.code || got.stderr != r0.stderr {
                     acc.violation("C02", &format!("cli-routes-differ:{n0}-vs-named-pipe{}", if ml { "(-U)" } else { "" }), format!("rg {:?}: output for a named pipe differs from output via {n0} (exit {} vs {}; {} vs {} bytes)", targs, got.code, r0.code, got.stdout.len(), r0.stdout.len()), sub, body);
                 }
@@ -348,6 +386,43 @@ pub fn run_workload(prop: &str, sub: u64, acc: &mut Acc, ctx: &Ctx, thorough: bo
     if acc.samples.len() < 1 && expected.len() > 20 && w.text.len() < 300 {
         acc.samples.push(json!({"subseed": sub, "leg": "cli", "flags": fl, "input": show(&w.text), "expected_output": show(&expected), "routes": "mmap, read, stdin, read under syscall fragmentation (+EINTR)"}));
     }
+}
+
+/// Under -U a block of adjacent matching lines is one match and only its first line carries the
+/// match's column, so --column is not comparable with the line-by-line rendering: it is replaced
+/// by --stats, which switches on the same per-match bookkeeping in the printer (the statistics
+/// trailer is cut off before comparing).
+fn ml_variant(fl: &[String], w: &W, ml: bool) -> (Vec<String>, W) {
+    if !ml || !w.column {
+        return (fl.to_vec(), w.clone());
+    }
+    // (not with --crlf: the per-match printing path re-terminates every line with CR LF, a bare
+    // LF included - presentation, not something the property speaks about; --column is just dropped)
+    let fl2: Vec<String> = fl.iter().filter(|f| !(w.crlf && *f == "--column")).map(|f| if f == "--column" { "--stats".to_string() } else { f.clone() }).collect();
+    (fl2, W { column: false, ..w.clone() })
+}
+
+/// Cuts the --stats trailer ("\nN matches\n...") off the end of stdout.
+fn strip_stats(out: &[u8]) -> Vec<u8> {
+    // the trailer: an empty line, "<n> matches", "<n> matched lines", ...
+    let mut starts = vec![0usize];
+    for (i, &b) in out.iter().enumerate() {
+        if b == b'\n' && i + 1 < out.len() {
+            starts.push(i + 1);
+        }
+    }
+    let line = |k: usize| -> &[u8] {
+        let s = starts[k];
+        let e = if k + 1 < starts.len() { starts[k + 1] - 1 } else { out.len().saturating_sub(1).max(s) };
+        &out[s..e.max(s)]
+    };
+    let is = |l: &[u8], suffix: &[u8]| l.ends_with(suffix) && l.len() > suffix.len() && l[..l.len() - suffix.len()].iter().all(|b| b.is_ascii_digit());
+    for k in (1..starts.len().saturating_sub(1)).rev() {
+        if is(line(k), b" matches") && is(line(k + 1), b" matched lines") && line(k - 1).is_empty() {
+            return out[..starts[k - 1]].to_vec();
+        }
+    }
+    out.to_vec()
 }
 
 fn model_has_match(w: &W) -> bool {
